@@ -147,6 +147,13 @@ Proof.
   intros Hok Hpi H2 Hgb. rewrite (index_sum n E Hok), Hgb, Hval, H2. field. exact Hpi.
 Qed.
 
+(* ---- the attribute after re-flagging does not remember what it held before (both element kinds): the generated
+   `resets` flags are true, so the stored indices are the ones of the field that was asked for *)
+Theorem flag_history_independent :
+  (forall (old : Z -> T) (E : list edge) (v : Z), singul_stored O old defect E rot v = singul O defect E rot v) /\
+  (forall (old : T) (flag : bool) (val : T), vsingul_stored O old flag val = if flag then val else 0).
+Proof. split; intros; reflexivity. Qed.
+
 End Index.
 
 (* the generated index expression has the form the theorems use: angle * (2 / pi) *)
